@@ -327,7 +327,8 @@ def applicable(heap, g, rich=True):
     for p in g:
         for c in g:
             ops.append(('conn', p, c))
-            for fl in (False, True):
+            # a non-edge is a no-op whatever the flag: try it once
+            for fl in ((False, True) if p in heap[c][2] else (False,)):
                 ops.append(('disc', p, c, fl))
     return ops
 
@@ -527,14 +528,14 @@ def run(ctx):
     if thorough:
         for n in range(1, 4):
             for pl in dict.fromkeys(dags(n) + dags(n, True)):
-                explore(col, 'sequences', (pl, tuple(range(n))), 2, False, rng, None)
+                explore(col, 'sequences', (pl, tuple(range(n))), 2, False, rng, 20)
         for pl in dags(4):
-            explore(col, 'sequences', (pl, tuple(range(4))), 2, False, rng, 10)
+            explore(col, 'sequences', (pl, tuple(range(4))), 2, False, rng, 6)
         for n in range(1, 4):
             for pl in dags(n):
                 explore(col, 'sequences', (pl, tuple(reversed(range(n)))), 3, False, rng, 4)
     else:
-        w2 = ctx.budget(4, 4)
+        w2 = ctx.budget(3, 3)
         for n in range(1, 4):
             for pl in dags(n):
                 explore(col, 'sequences', (pl, tuple(range(n))), 2, False, rng, w2)
